@@ -7,7 +7,8 @@ Open Scope N_scope.
 
 (* VFloat carries the text handed to np.float64(); which double that denotes is CPython's
    correctly rounded conversion (oracle, checked bit-exactly by the correspondence run). *)
-Inductive hval := VInt (z : Z) | VFloat (lit : str) | VStr (s : str).
+(* VNone: Python None (only produced in memory by the writer's STRT/STOP/STEP refresh) *)
+Inductive hval := VInt (z : Z) | VFloat (lit : str) | VStr (s : str) | VNone.
 
 Definition is_some {A} (o : option A) : bool := match o with Some _ => true | None => false end.
 
